@@ -159,6 +159,37 @@ theorem C20_instances (tmo n sc : Nat) (sched : List Nat) (es : List Entry) (h :
 example : ∀ i ∈ [2, 0, 1, 2], i < 3 := by decide
 example : (initPool 3 2).map (·.stub) = [1, 0, 1] := by decide
 
+/-! ### an entry is what its line says, whatever the pooled ammo object held before -/
+
+/-- **C20_ammo_fresh**: the ammo handed to the gun for a line is the line decoded on its own — tag, call, metadata and
+payload of the line, nothing for absent keys — for EVERY previous content of the pooled object it is delivered in
+(`sync.Pool` recycling after more than 128 entries); that the code decodes into a fresh object and resets the pooled
+one from all four of its fields is regenerated from the source (`Bridge.C20.ammoDecodeInto_eq`, `ammoResetCall_eq`,
+`ammoResetBody_eq`). -/
+theorem C20_ammo_fresh (pooled : Entry) (l : Line) :
+    decodeAmmo pooled l = unmarshalInto zeroEntry l ∧
+    (decodeAmmo pooled l).tag = l.tag.getD "" ∧ (decodeAmmo pooled l).call = l.call.getD "" ∧
+    (decodeAmmo pooled l).md = l.md.getD [] ∧ (decodeAmmo pooled l).payload = l.payload.getD [] ∧
+    Gen.GrpcGun.ammoDecodeInto = "&$fresh (a zero-valued local of type grpc.Ammo)" := by
+  refine ⟨rfl, rfl, rfl, ?_, ?_, Bridge.C20.ammoDecodeInto_eq⟩
+  · cases h : l.md <;> simp [decodeAmmo, resetAmmo, unmarshalInto, zeroEntry, mergeMap, h]
+  · cases h : l.payload <;> simp [decodeAmmo, resetAmmo, unmarshalInto, zeroEntry, mergeMap, h]
+
+/-- the statement the in-place variant would have to meet … -/
+def C20_ammo_inplace_statement : Prop :=
+  ∀ (pooled : Entry) (l : Line), (decodeAmmoInPlace pooled l).md = l.md.getD [] ∧ (decodeAmmoInPlace pooled l).payload = l.payload.getD []
+
+/-- … and does not: a line without metadata delivered in an object that carried `authorization` before is shot with
+that `authorization` -/
+theorem C20_ammo_inplace_counterexample : ¬ C20_ammo_inplace_statement := by
+  intro h
+  have := (h { tag := "a", call := "c", md := [("authorization", "Bearer x")], payload := [] } { tag := some "b", call := some "c" }).1
+  simp [decodeAmmoInPlace, resetAmmo, unmarshalInto] at this
+
+/-- non-vacuity: a rich line after a sparse one and the other way round -/
+example : (decodeAmmo { tag := "a", call := "c", md := [("k", "v")], payload := [("name", PVal.s "x")] }
+    { tag := some "b", call := some "d" }).md = [] := rfl
+
 /-! ### the calls go to the TARGET -/
 
 /-- **C20_target**: for every target, every `reflect_port` (configured or not), every number of instances and every
